@@ -5,7 +5,7 @@ use crate::exec::{hx, Rec};
 use crate::rng::Rng;
 use std::io::Write;
 
-mod bodyr;
+pub mod bodyr;
 mod bodyw;
 mod flowgen;
 mod head;
